@@ -92,3 +92,9 @@ TEXT["C07"] = {
     "design_ref": "DESIGN.md section 3, C07",
     "level_note": "Sampling beyond the grid. The specification's status table is transcribed in the test (independent of errorStatuses).",
 }
+TEXT["C06"] = {
+    "technique": "property-based testing (rapid): grammar-generated and mutated HTTP requests served in-process against a recording, close-tracking backend; oracle = no panic, OCI error documents with specification statuses, mandated success headers, backend-argument validity, every reader/writer closed",
+    "level_text": "Requests are generated from the endpoint table (8 templates) with slots filled from known / valid / hostile generators, then mutated at the path, query, header and body level (empty segments such as /v2/name/manifests/, repeated slashes, reserved words as names, over-long names, malformed and repeated query parameters, boundary Range / Content-Range values, mismatching Content-Length), under every server option combination, and served by ociserver.ServeHTTP directly. Each response is judged by status class: error documents and code/status agreement, per-endpoint mandatory headers and body-length consistency; the recording backend shows whether an invalid name, tag or digest ever got through and whether everything the server obtained was closed.",
+    "design_ref": "DESIGN.md section 3, C06",
+    "level_note": "In-process handler invocation (more hostile than the wire). Sampling; the thorough tier raises the count 30x.",
+}
